@@ -378,6 +378,14 @@ func judgeWills(w *world) {
 			attrs := map[string]string{"cause": f.cause, "same_mount": fmt.Sprint(cl.mount == dying.mount), "same_node": fmt.Sprint(cl.node == dying.node)}
 			if st, stopped := w.stopAt[dying.node]; stopped && f.cause != "stopnode" {
 				attrs["node_died_after_session_end"] = fmt.Sprint(st >= f.causeAt)
+				// the host publishes the will after it has removed (and started to gossip the removal
+				// of) the record: if it dies within the few milliseconds the publication takes to reach
+				// the other nodes, nobody publishes it
+				endAt := f.causeAt
+				if dying.sawClose && dying.closeAt > endAt {
+					endAt = dying.closeAt
+				}
+				attrs["host_died_right_after_end"] = fmt.Sprint(st >= endAt && st-endAt <= 50)
 				// did the host itself drop the record before it died, and had that removal been
 				// handed to the watcher's node when it was told of the failure?
 				_, gerr := w.nodes[dying.node].dstate.SessionMetadatas().Get(dying.sid)
